@@ -147,6 +147,20 @@ def enumerate_configs(tier: str, impls=("casadi", "numpy"), flags_mode="none"):
                             cfgs.append(
                                 Config(link_cls, n1, u_in, uo, ut, u_out, dd, d_out, d_in, delta, phi, impl=impl)
                             )
+    # a few user-initialised / default-engine configurations in every tier
+    seeds = [
+        Config(u_in=1, u_origin="MeteredOnRamp", u_otype="out", d_out=1, delta=True, phi=True),
+        Config(link_cls="LinkWithVsl", u_in="many", u_out="many", d_out="many", d_in="many", delta=True, phi=True),
+        Config(link_cls="LinkWithVsl", u_in=0, u_origin="MainstreamOrigin", d_dest="CongestedDestination", d_out=0, n1=True),
+        Config(u_in="many", u_origin="SimplifiedMeteredOnRamp", u_otype="limited", d_dest="Destination", d_out=0, delta=True),
+        Config(u_in=0, u_origin="Origin", d_out=1, phi=True),
+        Config(u_in=1, u_origin="SimplifiedMeteredOnRamp", u_otype="unlimited", d_out="many", delta=True),
+    ]
+    for impl in impls:
+        for b in seeds:
+            cfgs.append(replace(b, impl=impl, init="user"))
+            cfgs.append(replace(b, impl=impl, engine_arg="current"))
+            cfgs.append(replace(b, impl=impl, init="user", engine_arg="current"))
     if tier == "thorough":
         extra = []
         for c in cfgs:
